@@ -458,6 +458,23 @@ func (in *Interp) initExterns() {
 	E["(*sync.RWMutex).TryRLock"] = func(in *Interp, _ *frame, _ *ssa.Function, a []value) value {
 		return ts.Bool(in.sch.rwTryRLock(a[0].(Ptr)))
 	}
+	E["(*sync.Pool).Put"] = func(in *Interp, _ *frame, _ *ssa.Function, a []value) value {
+		if x := a[1].(Iface); x.t != nil {
+			in.sch.poolPut(a[0].(Ptr), x)
+		}
+		return nil
+	}
+	E["(*sync.Pool).Get"] = func(in *Interp, fr *frame, f *ssa.Function, a []value) value {
+		if x, ok := in.sch.poolGet(a[0].(Ptr)); ok {
+			return x
+		}
+		// New is the last field of sync.Pool
+		pool := (*a[0].(Ptr).p).(Struct)
+		if nf, ok := pool[len(pool)-1].(*Closure); ok && nf != nil {
+			return in.callValue(fr, nf, nil, 0)
+		}
+		return Iface{}
+	}
 	E["(*sync.Cond).Wait"] = func(in *Interp, fr *frame, _ *ssa.Function, a []value) value { in.condWait(fr, a[0].(Ptr)); return nil }
 	E["(*sync.Cond).Signal"] = func(in *Interp, _ *frame, _ *ssa.Function, a []value) value { in.condSignal(a[0].(Ptr), false); return nil }
 	E["(*sync.Cond).Broadcast"] = func(in *Interp, _ *frame, _ *ssa.Function, a []value) value { in.condSignal(a[0].(Ptr), true); return nil }
